@@ -166,3 +166,18 @@ Example C03_example :
   /\ reader ex_o (bs "@h" ++ LF :: bs "too" ++ TAB :: bs "few" ++ [LF]) TEOF = [ErrItem]
   /\ get_Supplementary 2048 = true /\ set_Unmapped 4095 false = 4091%Z.
 Proof. vm_compute. repeat split. Qed.
+
+(* ---- tie to the Go source by translation (gen/SrcGen.v, regenerated on every run) ---- *)
+From Bio.gen Require SrcGen.
+From Bio.Proofs Require SrcGenProofs.
+
+(* the chunks of SAM.Write are the three translated Fprintf calls, namely the eleven
+   mandatory fields ("%s\t%d\t...\t%s"), "\t%s" per sorted tag text, and "\n" *)
+Theorem C03_write_format_is_source : forall o r,
+  Bio.Model.Sam.write_calls o r
+  = SrcGen.src_sam_Write_0 (Bio.Model.Sam.s_qname r) (Bio.Model.Sam.s_flag r) (Bio.Model.Sam.s_rname r)
+      (Bio.Model.Sam.s_pos r) (Bio.Model.Sam.s_mapq r) (Bio.Model.Sam.s_cigar r) (Bio.Model.Sam.s_rnext r)
+      (Bio.Model.Sam.s_pnext r) (Bio.Model.Sam.s_tlen r) (Bio.Model.Sam.s_seq r) (Bio.Model.Sam.s_qual r)
+    :: map SrcGen.src_sam_Write_1 (Bio.Model.Sam.tags_text o (Bio.Model.Sam.s_tags r)) ++ [SrcGen.src_sam_Write_2].
+Proof. exact SrcGenProofs.sam_write_is_source. Qed.
+Print Assumptions C03_write_format_is_source.
